@@ -769,7 +769,7 @@ fn print_sheet(rng: &mut Rng, rules: &[Rule], style: usize) -> String {
         for (k, (p, v, imp)) in r.decls.iter().enumerate() {
             o.push_str(&ws(rng));
             if style > 0 && rng.chance(1, 5) {
-                o.push_str(*rng.pick(&["frobnicate: 12px solid;", "background-image:url(data:image/png;base64,AAA=);", "x:(a;b);", "grid-area: [a;b] 1 / 2;", "width:calc(1px + (2px * 3));", "font: 12px/1.5 \"a;b}\", serif;", "-webkit-Foo:bar(1; 2px) 50% #Ab;"]));
+                o.push_str(*rng.pick(&["frobnicate: 12px solid;", "background-image:url(data:image/png;base64,AAA=);", "x:(a;b);", "grid-area: [a;b] 1 / 2;", "width:calc(1px + (2px * 3));", "font: 12px/1.5 \"a;b}\", serif;", "-webkit-Foo:bar(1; 2px) 50% #Ab;", "font-family: \"Jim's Font\", serif;", "font-family: 'Say \"hi\" Font';", "quotes: \"'\" \"'\";"]));
                 o.push_str(&ws(rng));
             }
             if style > 0 && k == 0 && rng.chance(1, 6) {
@@ -1006,7 +1006,7 @@ fn mark_hidden(rng: &mut Rng, v: &[H], hide_prob: usize, mode: usize, hidden_ids
                     let mut at = attrs.clone();
                     at.retain(|(k, _)| k != "class" && k != "style");
                     match mode {
-                        0 => at.push(("class".into(), "hide".into())),
+                        0 => at.push(("class".into(), rng.pick(&["hide", "hide hide2", "hide2\thide"]).to_string())),
                         1 => at.push(("style".into(), rng.pick(&["display:none", "display: none;", "color:#00f;display:none", "color:#00f;;display:none", "color: #00f ; ; display : none ;;", "frob:1;display:none;color:red", "display:none !important", "display:block;display:none"]).to_string())),
                         2 => {
                             // the zero-height + hidden-overflow idiom in every spelling and order
@@ -1096,7 +1096,13 @@ fn gen_c18(tier: &str, rng: &mut Rng) -> Vec<Case> {
             0 => {
                 let sel = *rng.pick(&[".hide", "*.hide", "div .hide, .hide"]);
                 let body = *rng.pick(&["display: none;", "display:none", "color: red;; display: none", "color:red ; display:none ;;", "height: 0;; overflow: hidden", "overflow:hidden;color:red;max-height:0"]);
-                cfg.user_css.push(format!("{} {{ {} }}", sel, body));
+                let rule = format!("{} {{ {} }}", sel, body);
+                if rng.chance(1, 3) {
+                    // ".hide2" is carried by the same elements (see below): shown in between, hidden last
+                    cfg.user_css.push(format!("{} .hide2 {{ display: block }} {}", rule, rule));
+                } else {
+                    cfg.user_css.push(rule);
+                }
             }
             1 | 2 => {
                 cfg.doc_css = true;
